@@ -234,7 +234,8 @@ PROPS = {
     },
     "C06": {
         "proof_files": ["Proofs/ResolverFacts.v", "Proofs/CacheFacts.v"],
-        "runs": [{"engine": "resolver", "args": ["-mode", "hist"], "n_quick": 160, "n_thorough": 8000, "netns": True}],
+        "runs": [{"engine": "resolver", "args": ["-mode", "hist"], "n_quick": 160, "n_thorough": 8000, "netns": True},
+                 {"engine": "resolver", "args": ["-mode", "e2e"], "n_quick": 500, "n_thorough": 30000, "netns": True}],
         "trivial_tags": [r"hit0$"],
         "rule": "random histories (4-24 ops) on one real resolver.DNS: DoH queries under 3 profiles (real HTTP/2+TLS, request path observed), "
                 "DNS53 queries after a forced election, repeated questions incl. other profile / other letter case, clock advances (cache and "
